@@ -3,7 +3,7 @@ from ..core import Ob
 T = ['matrix', 'vector', 'memwrapper', 'numeric', 'algebra', 'tensor', 'list', 'interpolate', 'optimization']
 META = dict(
     functions=['cubic_spline_interpolation', 'cubic_spline_predict', 'curve_area', 'NelderMeadSimplex'],
-    bounds='3..4 knots (5 in thorough), strictly increasing abscissae with gaps in [1e-4,1e4], ordinates symbolic; area n<=5; simplex d in {1,2}, 1..2 iterations, convex quadratic objective with symbolic coefficients',
+    bounds='3..4 knots (5 in thorough), strictly increasing abscissae with gaps in [1e-7,1e7], ordinates symbolic; area n<=5; simplex d in {1,2}, 1..2 iterations, convex quadratic objective with symbolic coefficients',
     outside='rounding; convergence of the simplex to the minimiser; more knots / dimensions than the bound',
     stubs=['sqrt exact real root'],
     assumptions=['nonzero divisors (knot gaps > 0 is assumed, so none is vacuous)'],
